@@ -126,6 +126,18 @@ func c07Run(w *W) {
 			c.n++
 			sv := &c7Surv{n: c.n, tag: fmt.Sprintf("s%d-%d", c.idx, c.n), start: w.Now(), T: c.T}
 			w.Op("ctx%d survey %s", c.idx, sv.tag)
+			// a respondent may connect at the very moment the survey is sent: it
+			// gets this survey or not, and every later one
+			fresh := map[*MsgPipe]bool{}
+			if len(pipes) < npipes+3 && w.Choose(simrt.SProg, 4) == 0 {
+				mn.ConnectWith(addr, func(p *MsgPipe) {
+					pipes = append(pipes, p)
+					fresh[p] = true
+					p.OnSend = func(m WireMsg) { wire = append(wire, m) }
+				})
+				w.Op("a respondent connects while %s is being sent", sv.tag)
+				w.Probe("respondent-connects-during-survey")
+			}
 			call := w.Do("Send "+sv.tag, func() (interface{}, error) { return nil, send(c, []byte(sv.tag)) })
 			w.Settle()
 			if !call.Returned() || call.Err != nil {
@@ -149,6 +161,9 @@ func c07Run(w *W) {
 				got[m.Pipe]++
 			}
 			for _, p := range pipes {
+				if fresh[p] && got[p] <= 1 {
+					continue
+				}
 				if p.Open() && got[p] != 1 {
 					w.Failf("C07/survey-not-broadcast", "survey %s reached respondent %s %d times", sv.tag, p.Name, got[p])
 					return
